@@ -141,8 +141,29 @@ var c11KeySets = [][]string{
 	{"zz", "z", "y", "x~", "x", "x "},
 }
 
+// c11Siblings lists the groups of identities (indices into pool) that share an upkeep id.
+func c11Siblings(pool []c11Ident) [][]int {
+	by := map[ocr2keepers.UpkeepIdentifier][]int{}
+	var order []ocr2keepers.UpkeepIdentifier
+	for i, id := range pool {
+		if _, ok := by[id.uid]; !ok {
+			order = append(order, id.uid)
+		}
+		by[id.uid] = append(by[id.uid], i)
+	}
+	var out [][]int
+	for _, u := range order {
+		if len(by[u]) >= 2 {
+			out = append(out, by[u])
+		}
+	}
+	return out
+}
+
 // c11Pool builds n identities of the given types with work ids in a random order of a key set
-// (or real keccak work ids), so that sorted order and insertion order are unrelated.
+// (or real keccak work ids), so that sorted order and insertion order are unrelated.  Runs of
+// 2-4 log identities share one upkeep id (several logs of one upkeep: same UpkeepID, different
+// WorkID), so keying anything by upkeep id instead of work id shows.
 func c11Pool(r *Rng, n int, typ func(i int) uint8) []c11Ident {
 	var keys []string
 	real := r.Chance(25)
@@ -153,9 +174,17 @@ func c11Pool(r *Rng, n int, typ func(i int) uint8) []c11Ident {
 		}
 	}
 	out := make([]c11Ident, n)
+	group := 0 // size of the current run of identities that share one log upkeep
 	for i := range out {
 		ty := typ(i)
 		id := c11Ident{uid: ocr2keepers.UpkeepIdentifier(simutil.NewUpkeepID(r.Bytes(8), ty))}
+		// a log upkeep has one work id per log: 2-4 identities share the upkeep id
+		if ty == uint8(types.LogTrigger) && i > 0 && out[i-1].ext != nil && group < 4 && r.Chance(55) {
+			id.uid = out[i-1].uid
+			group++
+		} else {
+			group = 1
+		}
 		if ty == uint8(types.LogTrigger) {
 			id.ext = &ocr2keepers.LogTriggerExtension{TxHash: genHash(r), Index: uint32(r.Intn(4)), BlockHash: genHash(r), BlockNumber: ocr2keepers.BlockNumber(90 + r.Intn(5))}
 		}
@@ -206,6 +235,9 @@ func (b *c11B) outcome(sf [][]JProp) {
 	}
 	b.ops = append(b.ops, c11Op{Op: "outcome", Surfaced: cp})
 	b.enqs = append(b.enqs, b.now)
+	// every surfaced work id must have left the pending sets: observe both right after the hooks
+	b.view(uint8(types.LogTrigger))
+	b.view(uint8(types.ConditionTrigger))
 }
 func (b *c11B) input() c11Input { return c11Input{Types: []c11Type{}, Ops: b.ops} }
 
@@ -362,7 +394,45 @@ func c11GenMetaWalk(r *Rng, em *Emitter) c11Input {
 			b.remove(ps...)
 		case x < 47:
 			b.outcome([][]JProp{{pick()}, {}, {pick(), pick()}})
-		case x < 75:
+		case x < 53:
+			// several logs of one upkeep pending, two or more of them surfaced in one outcome
+			// (same round or different rounds): each work id must leave the pending set
+			sib := c11Siblings(pool)
+			if len(sib) == 0 {
+				b.view(uint8(r.Intn(2)))
+				break
+			}
+			g := sib[r.Intn(len(sib))]
+			var pend []JProp
+			for _, i := range g {
+				if r.Chance(85) {
+					pend = append(pend, pool[i].at(r, 100))
+				}
+			}
+			if len(pend) > 0 {
+				b.add(pend...)
+			}
+			perm := r.Perm(len(g))
+			k := r.Range(2, len(g))
+			var sf [][]JProp
+			if r.Bool() {
+				var round []JProp
+				for _, j := range perm[:k] {
+					round = append(round, pool[g[j]].at(r, 100))
+				}
+				sf = [][]JProp{round}
+				em.Hit("same-upkeep-outcome:same-round")
+			} else {
+				for _, j := range perm[:k] {
+					sf = append(sf, []JProp{pool[g[j]].at(r, uint64(100+r.Intn(2)))})
+					if r.Chance(40) {
+						sf = append(sf, []JProp{})
+					}
+				}
+				em.Hit("same-upkeep-outcome:different-rounds")
+			}
+			b.outcome(sf)
+		case x < 78:
 			t := uint8(r.Intn(2))
 			if r.Chance(4) {
 				t = uint8(r.Range(2, 5))
@@ -424,7 +494,28 @@ func c11GenQueue(r *Rng, em *Emitter) c11Input {
 			b.enq(ps...)
 		case x < 42:
 			b.outcome([][]JProp{{pick(), pick()}, {pick()}})
-		case x < 75:
+		case x < 49:
+			// two work ids of one upkeep: both queued, one re-coordinated on a higher block, the other not
+			sib := c11Siblings(pool)
+			if len(sib) == 0 {
+				b.enq(pick())
+				break
+			}
+			g := sib[r.Intn(len(sib))]
+			perm := r.Perm(len(g))
+			a, c := pool[g[perm[0]]], pool[g[perm[1]]]
+			b.enq(a.at(r, 100), c.at(r, 100))
+			if r.Chance(70) {
+				b.deq(1, []int{1, 50, 50}[r.Intn(3)])
+			}
+			if r.Bool() {
+				b.enq(a.at(r, 101), c.at(r, 100))
+			} else {
+				b.outcome([][]JProp{{c.at(r, 100)}, {a.at(r, 101)}, {a.at(r, 100)}})
+			}
+			b.deq(1, 50)
+			em.Hit("same-upkeep-queue")
+		case x < 77:
 			t := uint8(r.Intn(2))
 			if r.Chance(6) {
 				t = 2
@@ -668,6 +759,90 @@ func c11Edge() []c11Input {
 		b.deq(1, 50)
 		b.deq(1, 50)
 		out = append(out, b.input())
+	}
+	// 9. removal while the key slice is not sorted (no view since the adds), then the same work id again:
+	//    the key must be in the slice exactly once, whatever order the keys were added in
+	for _, perm := range [][]int{{2, 0, 1}, {1, 2, 0}, {2, 1, 0}, {0, 2, 1}} {
+		for _, victim := range []int{0, 1, 2} {
+			p := ids(1, "a", "b", "c")
+			b := newC11B(r)
+			for _, i := range perm {
+				b.add(p[i].at(r, 100))
+			}
+			b.remove(p[victim].at(r, 100))
+			b.add(p[victim].at(r, 101))
+			b.view(1)
+			b.remove(p[victim].at(r, 101))
+			b.view(1)
+			b.outcome([][]JProp{{p[(victim+1)%3].at(r, 100)}})
+			b.add(p[(victim+1)%3].at(r, 100), p[victim].at(r, 100))
+			b.view(1)
+			out = append(out, b.input())
+		}
+	}
+	// 8. several logs of ONE log upkeep (same UpkeepID, different WorkID)
+	{
+		uid := ocr2keepers.UpkeepIdentifier(simutil.NewUpkeepID(r.Bytes(8), 1))
+		mk := func(w string, idx uint32) c11Ident {
+			return c11Ident{uid: uid, wid: w, ext: &ocr2keepers.LogTriggerExtension{TxHash: genHash(r), Index: idx, BlockHash: genHash(r), BlockNumber: 90}}
+		}
+		A, B, C, D := mk("log-A", 0), mk("log-B", 1), mk("log-C", 2), mk("log-D", 3)
+		other := ids(1, "other")[0]
+		// 8a. two of them surfaced in the same round, a third one not surfaced
+		b := newC11B(r)
+		b.add(A.at(r, 100), B.at(r, 100), C.at(r, 100), other.at(r, 100))
+		b.view(1)
+		b.outcome([][]JProp{{A.at(r, 100), B.at(r, 100)}})
+		b.view(1) // [log-C, other]
+		out = append(out, b.input())
+		// 8b. surfaced in different rounds of the history, in both orders, with an empty round between
+		for _, order := range [][]c11Ident{{A, B, D}, {D, B, A}, {B, A}} {
+			b := newC11B(r)
+			b.add(D.at(r, 100), C.at(r, 100))
+			b.adv(int64(time.Hour))
+			b.add(B.at(r, 100), A.at(r, 100))
+			var sf [][]JProp
+			for _, id := range order {
+				sf = append(sf, []JProp{id.at(r, 100)}, []JProp{})
+			}
+			b.outcome(sf)
+			b.view(1) // only what was not surfaced
+			b.view(0)
+			b.outcome(sf) // the same history again next round
+			b.view(1)
+			out = append(out, b.input())
+		}
+		// 8c. RemoveProposals / AddProposals with several work ids of one upkeep in one call
+		{
+			b := newC11B(r)
+			b.add(A.at(r, 100), B.at(r, 100), C.at(r, 100))
+			b.remove(B.at(r, 100), A.at(r, 100))
+			b.view(1) // [log-C]
+			b.add(A.at(r, 101))
+			b.remove(C.at(r, 100), C.at(r, 100))
+			b.view(1) // [log-A]
+			b.adv(24*H + 1)
+			b.add(B.at(r, 100))
+			b.view(1) // [log-B]
+			out = append(out, b.input())
+		}
+		// 8d. queue: two work ids of one upkeep; A re-coordinated on a higher block, B not
+		{
+			b := newC11B(r)
+			b.enq(A.at(r, 100), B.at(r, 100))
+			b.deq(1, 50) // both
+			b.enq(A.at(r, 101), B.at(r, 100))
+			b.deq(1, 50) // A@101 only
+			b.outcome([][]JProp{{B.at(r, 100), A.at(r, 101)}, {A.at(r, 100)}, {C.at(r, 100)}})
+			b.deq(1, 1) // C
+			b.deq(1, 50)
+			b.adv(20*S + 1)
+			b.deq(0, 50) // purges all
+			b.outcome([][]JProp{{A.at(r, 100), B.at(r, 100), C.at(r, 100)}})
+			b.deq(1, 2) // any two of the three
+			b.deq(1, 2) // the third
+			out = append(out, b.input())
+		}
 	}
 	// 7. an outcome whose 20-round history repeats one proposal in every round
 	{
